@@ -103,36 +103,55 @@ def State.setNode (s : State) (i : Nat) (d : Node) : State :=
   { s with node := fun k => if k = i then d else s.node k }
 
 /-- the packets `broadcastNextPartial` sends: one per other group member -/
-def State.others (s : State) (i r : Nat) : List Msg :=
-  ((List.range s.n).filter (fun j => j != i)).map (fun j => ⟨i, j, r⟩)
+def others (n i r : Nat) : List Msg :=
+  ((List.range n).filter (fun j => j != i)).map (fun j => ⟨i, j, r⟩)
 
 /-- `broadcastNextPartial` after the round is fixed: own partial straight to the aggregator, one message per peer -/
-def State.broadcast (s : State) (i r : Nat) : State :=
-  { (s.setNode i ((s.node i).aggregate s.n s.thr i r)) with msgs := s.msgs ++ s.others i r }
+def Node.broadcast (n thr i : Nat) (d : Node) (r : Nat) : Node × List Msg :=
+  (d.aggregate n thr i r, others n i r)
 
-/-- `Handler.run`, case tick -/
-def State.tick (s : State) (i : Nat) : State :=
-  if !(s.node i).up then s else
-  let s1 := (s.setNode i ((s.node i).setTick (s.node i).clock)).broadcast i (Gen.bnpRound (s.node i).clock (s.node i).head)
-  if Gen.gapSync (s.node i).head (s.node i).clock then
-    s1.setNode i ((s1.node i).setSync (max (s1.node i).syncTo (s.node i).clock))     -- RunSync(current.round)
-  else s1
+/-- `Handler.run`, case tick, at node i: the new node state and the packets sent -/
+def Node.tickStep (n thr i : Nat) (d : Node) : Node × List Msg :=
+  if !d.up then (d, []) else
+  let b := (d.setTick d.clock).broadcast n thr i (Gen.bnpRound d.clock d.head)
+  if Gen.gapSync d.head d.clock then (b.1.setSync (max b.1.syncTo d.clock), b.2)      -- RunSync(current.round)
+  else b
 
-/-- the oldest sleeping catch-up goroutine of node i wakes: `broadcastNextPartial(c, &latest)`, `latest.Round < c.round` -/
-def State.fire (s : State) (i : Nat) : State :=
-  if !(s.node i).up then s else
-  match (s.node i).pending with
-  | [] => s
-  | r :: rest => (s.setNode i ((s.node i).setPending rest)).broadcast i (r + 1)
+/-- the oldest sleeping catch-up goroutine wakes: `broadcastNextPartial(c, &latest)`, `latest.Round < c.round` -/
+def Node.fireStep (n thr i : Nat) (d : Node) : Node × List Msg :=
+  if !d.up then (d, []) else
+  match d.pending with
+  | [] => (d, [])
+  | r :: rest => (d.setPending rest).broadcast n thr i (r + 1)
 
-/-- `ProcessPartialBeacon` at the destination (honest sender: index, group membership and signature checks pass) -/
+/-- `c` catch-up goroutines wake one after the other -/
+def Node.fireSteps (n thr i : Nat) : Nat → Node → Node × List Msg
+  | 0, d => (d, [])
+  | c + 1, d => ((Node.fireSteps n thr i c (d.fireStep n thr i).1).1, (d.fireStep n thr i).2 ++ (Node.fireSteps n thr i c (d.fireStep n thr i).1).2)
+
+/-- `ProcessPartialBeacon` (honest sender: index, group membership and signature checks pass); `reach`: the call arrives -/
+def Node.recvStep (n thr : Nat) (reach : Bool) (d : Node) (m : Msg) : Node :=
+  if !d.up then d
+  else if !reach then d                                                  -- the call fails
+  else if Gen.ppbFuture m.round (d.clock + 1) then d                     -- ignoring future partial
+  else if Gen.ppbPast m.round d.head then d                              -- ignoring past partial
+  else if m.src = m.dst then d                                           -- own address
+  else d.aggregate n thr m.src m.round
+
+/-- node i takes a step that depends on its own state only and may send packets -/
+def State.act (s : State) (i : Nat) (F : Node → Node × List Msg) : State :=
+  { s with node := fun k => if k = i then (F (s.node i)).1 else s.node k, msgs := s.msgs ++ (F (s.node i)).2 }
+
+def State.tick (s : State) (i : Nat) : State := s.act i (Node.tickStep s.n s.thr i)
+
+def State.fire (s : State) (i : Nat) : State := s.act i (Node.fireStep s.n s.thr i)
+
+/-- every catch-up goroutine of node i that was sleeping at the start of the sub-round wakes -/
+def State.fireNode (s : State) (i : Nat) : State :=
+  s.act i (fun d => Node.fireSteps s.n s.thr i d.pending.length d)
+
 def State.recv (s : State) (m : Msg) : State :=
-  if !(s.node m.dst).up then s
-  else if !s.conn m.src m.dst then s                                     -- the call fails
-  else if Gen.ppbFuture m.round ((s.node m.dst).clock + 1) then s        -- ignoring future partial
-  else if Gen.ppbPast m.round (s.node m.dst).head then s                 -- ignoring past partial
-  else if m.src = m.dst then s                                           -- own address
-  else s.setNode m.dst ((s.node m.dst).aggregate s.n s.thr m.src m.round)
+  s.act m.dst (fun d => (d.recvStep s.n s.thr (s.conn m.src m.dst) m, []))
 
 /-- fair delivery: every message in flight is handed to its destination (undeliverable ones are lost) -/
 def State.deliverAll (s : State) : State :=
@@ -203,13 +222,6 @@ def State.init (n thr : Nat) : State :=
 /-! ### fair sub-rounds -/
 
 def State.forAll (s : State) (f : State → Nat → State) : State := (List.range s.n).foldl f s
-
-def State.fireN (s : State) (i : Nat) : Nat → State
-  | 0 => s
-  | c + 1 => (s.fire i).fireN i c
-
-/-- every catch-up goroutine of node i that was sleeping at the start of the sub-round wakes -/
-def State.fireNode (s : State) (i : Nat) : State := s.fireN i (s.node i).pending.length
 
 /-- syncs pull, every message is delivered, syncs pull again (a follower receives what its peer just stored) -/
 def State.settle (s : State) : State := ((s.forAll State.pull).deliverAll).forAll State.pull
